@@ -52,6 +52,148 @@ type c11Env struct {
 	newFin  []int
 	allFin  []int
 	workers []*c11Worker
+	arm     []string        // per caller: the hold point it is armed for ("" = none)
+	holdCh  []chan struct{} // per caller: released by unhold
+	held    atomic.Int32    // callers parked at a hold point (they own pe.lock)
+	bgArm   bool            // the background flusher is armed for the hold point "fremoved"
+	bgCh    chan struct{}
+	bholder int             // caller that holds pe.wgBarrier for the harness (-1 = nobody)
+	bch     chan string     // releases it: the value names the call the caller goes on with, without yielding
+	wret    []string        // "<caller>:<k>": a Wait of caller returned after k callback ends of this operation
+	dead    bool            // the watchdog fired in this section: no further operation is attempted
+	stuck   string          // what the watchdog saw
+}
+
+// goroutines of earlier sections that never ended (a lost batch makes Add / Wait block for ever):
+// reported once as `stuck`, then ignored by the quiescence detection of later sections.
+var c11Zombies = map[int64]bool{}
+
+// c11HookContainer wraps the real bulk/chunk container: it lets the harness park a caller INSIDE the
+// executor's critical section (the container is only called with pe.lock held), so that ticks, Flush and
+// Wait of other goroutines can be fired while a producer is at the threshold / has removed the batch.
+type c11HookContainer struct {
+	inner TaskContainer
+	e     *c11Env
+}
+
+func (h *c11HookContainer) AddTask(task any) bool {
+	full := h.inner.AddTask(task)
+	if full {
+		h.e.holdAt("full")
+	} else {
+		h.e.holdAt("notfull")
+	}
+	return full
+}
+
+func (h *c11HookContainer) Execute(tasks any) { h.inner.Execute(tasks) }
+
+func (h *c11HookContainer) RemoveAll() any {
+	v := h.inner.RemoveAll()
+	h.e.holdAt("removed")
+	return v
+}
+
+//go:noinline
+func c11HoldPark(ch chan struct{}) { <-ch }
+
+//go:noinline
+func c11BarrierPark(ch chan string) string { return <-ch }
+
+// wait calls pe.Wait and records how many callbacks of the current operation had ended when it returned
+func (e *c11Env) wait(w int) {
+	e.pe.Wait()
+	e.mu.Lock()
+	e.wret = append(e.wret, fmt.Sprintf("%d:%d", w, len(e.newFin)))
+	e.mu.Unlock()
+}
+
+// bhold makes caller w take pe.wgBarrier and park inside it: everybody who wants to enter the wait group
+// (Flush, the flusher's hand-over path) or to wait on it parks at the barrier. On release the caller goes on
+// directly with `follow` (wait | flush | none).
+func (e *c11Env) bhold(w int) {
+	e.bholder = w
+	e.workers[w].cmd <- func() {
+		follow := ""
+		e.pe.wgBarrier.Guard(func() { follow = c11BarrierPark(e.bch) })
+		switch follow {
+		case "wait":
+			e.wait(w)
+		case "flush":
+			e.pe.Flush()
+		}
+	}
+}
+
+// brel releases the barrier. One P while the operation runs: the releasing caller then runs ahead of the
+// goroutines it wakes (they are only made runnable), which is the schedule in which a batch that is in
+// nobody's books between RemoveAll / the commander and waitGroup.Add is missed by Wait.
+func (e *c11Env) brel(follow string, self int64) string {
+	old := runtime.GOMAXPROCS(1)
+	e.bch <- follow
+	e.bholder = -1
+	obs := e.observe(self)
+	runtime.GOMAXPROCS(old)
+	return obs
+}
+
+// holdAt parks the calling caller-goroutine if it is armed for this point. "removed" is the RemoveAll of
+// addAndCheck (the producer owns the batch, inflight = 1); inside Flush the same call is point "fremoved".
+func (e *c11Env) holdAt(point string) {
+	buf := make([]byte, 4096)
+	n := runtime.Stack(buf, false)
+	st := string(buf[:n])
+	f := strings.Fields(st)
+	id, _ := strconv.ParseInt(f[1], 10, 64)
+	if point == "removed" && !strings.Contains(st, ").addAndCheck(") {
+		point = "fremoved"
+	}
+	for wi, w := range e.workers {
+		if w.goid == id {
+			e.mu.Lock()
+			armed := e.arm[wi] == point
+			ch := e.holdCh[wi]
+			e.mu.Unlock()
+			if armed {
+				e.held.Add(1)
+				c11HoldPark(ch)
+				e.held.Add(-1)
+			}
+			return
+		}
+	}
+	// not a caller: a background flusher inside the RemoveAll of its tick / quit Flush (`hold bg fremoved`)
+	if point == "fremoved" && strings.Contains(st, "backgroundFlush.func1") {
+		e.mu.Lock()
+		armed := e.bgArm
+		e.mu.Unlock()
+		if armed {
+			e.held.Add(1)
+			c11HoldPark(e.bgCh)
+			e.held.Add(-1)
+		}
+	}
+}
+
+func (e *c11Env) unholdBg() {
+	e.mu.Lock()
+	e.bgArm = false
+	e.mu.Unlock()
+	select {
+	case e.bgCh <- struct{}{}:
+	default:
+	}
+}
+
+func (e *c11Env) unhold(w int) {
+	e.mu.Lock()
+	e.arm[w] = ""
+	ch := e.holdCh[w]
+	e.mu.Unlock()
+	select {
+	case ch <- struct{}{}:
+	default:
+	}
 }
 
 type c11Worker struct {
@@ -157,9 +299,27 @@ func c11Inner(stack string) string {
 // classify returns the parking class of a goroutine of this package, or "" if it is not parked.
 func (e *c11Env) classify(g c11G) string {
 	in := c11Inner(g.stack)
+	if g.state == "semacquire" {
+		// "semacquire" is the wait reason of sync.WaitGroup.Wait (up to go 1.23) and of sync.Mutex.Lock (old
+		// toolchains), but ALSO of a goroutine waiting for a runtime-internal semaphore - typically the GC's world
+		// semaphore, which this harness itself holds while it takes the dump: a goroutine that allocates inside
+		// Wait's poll loop was once taken for "parked at the barrier". Only the sync primitives are parking points.
+		switch {
+		case strings.Contains(g.stack, "sync.(*WaitGroup).Wait"):
+			g.state = "sync.WaitGroup.Wait"
+		case strings.Contains(g.stack, "sync.(*Mutex).Lock") || strings.Contains(g.stack, "sync.(*Mutex).lockSlow"):
+			g.state = "sync.Mutex.Lock"
+		default:
+			return "" // transient
+		}
+	}
 	switch g.state {
 	case "chan receive":
 		switch {
+		case in == "c11HoldPark":
+			return "hold"
+		case in == "c11BarrierPark":
+			return "bhold"
 		case in == "c11Gate":
 			return "cb"
 		case in == "c11WorkerLoop":
@@ -178,7 +338,7 @@ func (e *c11Env) classify(g c11G) string {
 		if strings.HasPrefix(in, "(*PeriodicalExecutor).backgroundFlush.func1") {
 			return "select"
 		}
-	case "sync.Mutex.Lock", "semacquire", "sync.WaitGroup.Wait":
+	case "sync.Mutex.Lock", "sync.WaitGroup.Wait":
 		switch {
 		case strings.HasPrefix(in, "(*PeriodicalExecutor).enterExecution"):
 			return "enter"
@@ -186,10 +346,28 @@ func (e *c11Env) classify(g c11G) string {
 			return "wgwait"
 		case in == "(*PeriodicalExecutor).Wait":
 			return "wbar"
+		case in == "(*PeriodicalExecutor).addAndCheck":
+			return "alock"
+		case strings.HasPrefix(in, "(*PeriodicalExecutor).Flush.func1"):
+			return "flock"
+		case in == "(*PeriodicalExecutor).shallQuit":
+			return "qlock"
 		}
 	case "sleep":
 		if in == "(*PeriodicalExecutor).Wait" && atomic.LoadInt32(&e.pe.inflight) > 0 {
 			return "spin"
+		}
+		return ""
+	}
+	// ("semacquire" is not in the list: it is also the state of a goroutine waiting for a runtime-internal
+	// semaphore, e.g. the GC's world semaphore while this harness holds it for the dump - a transient state)
+	// blocked for good at a point the protocol does not have (a changed tree): still a parking point, so that
+	// the run reaches "quiescence" at once and the monitor / the model report it instead of a watchdog timeout
+	switch g.state {
+	case "chan receive", "chan send", "select", "sync.Mutex.Lock", "sync.RWMutex.Lock", "sync.RWMutex.RLock",
+		"sync.WaitGroup.Wait", "sync.Cond.Wait", "chan receive (nil chan)", "chan send (nil chan)", "select (no cases)":
+		if in != "" && !strings.HasPrefix(in, "c11") && !strings.HasPrefix(in, "(*c11") && !strings.HasPrefix(in, "TestVerif") {
+			return "park:" + strings.ReplaceAll(in, " ", "")
 		}
 	}
 	return ""
@@ -200,14 +378,23 @@ type c11Snap struct {
 	flushers []string
 }
 
-// quiesce polls until every goroutine of the package is parked; returns nil on timeout.
+// watchdog: an operation that has not reached quiescence after this much real time is `stuck`
+// (every protocol step is a few microseconds of work; parked-for-good goroutines are quiescent at once)
+const c11Watchdog = 4 * time.Second
+
+// quiesce polls until every goroutine of the package is parked; on a watchdog timeout it returns nil,
+// marks the section dead and keeps the goroutines that were still moving in e.stuck.
 func (e *c11Env) quiesce(self int64) *c11Snap {
-	deadline := time.Now().Add(20 * time.Second)
+	if e.dead {
+		return nil
+	}
+	deadline := time.Now().Add(c11Watchdog)
 	for i := 0; ; i++ {
 		snap := &c11Snap{workers: make([]string, len(e.workers))}
 		ok := true
+		var moving []string
 		for _, g := range c11Dump() {
-			if g.id == self || !strings.Contains(g.stack, "go-zero/core/executors.") {
+			if g.id == self || c11Zombies[g.id] || !strings.Contains(g.stack, "go-zero/core/executors.") {
 				continue
 			}
 			if strings.Contains(g.stack, "c11Foreign") {
@@ -216,7 +403,8 @@ func (e *c11Env) quiesce(self int64) *c11Snap {
 			cl := e.classify(g)
 			if cl == "" {
 				ok = false
-				break
+				moving = append(moving, strings.ReplaceAll(g.state, " ", "_")+"@"+strings.ReplaceAll(c11Inner(g.stack), " ", ""))
+				continue
 			}
 			isWorker := false
 			for wi, w := range e.workers {
@@ -230,7 +418,7 @@ func (e *c11Env) quiesce(self int64) *c11Snap {
 					snap.flushers = append(snap.flushers, cl)
 				} else if cl != "idle" {
 					ok = false // a goroutine of an earlier section still moving, or unknown
-					break
+					moving = append(moving, "foreign:"+cl)
 				}
 			}
 		}
@@ -246,6 +434,12 @@ func (e *c11Env) quiesce(self int64) *c11Snap {
 			return snap
 		}
 		if time.Now().After(deadline) {
+			sort.Strings(moving)
+			e.dead = true
+			e.stuck = "stuck moving=" + strings.Join(moving, ",")
+			if len(moving) == 0 {
+				e.stuck = "stuck moving=?"
+			}
 			return nil
 		}
 		if i < 200 {
@@ -253,6 +447,20 @@ func (e *c11Env) quiesce(self int64) *c11Snap {
 		} else {
 			time.Sleep(20 * time.Microsecond)
 		}
+	}
+}
+
+// reap is called at the end of a section: whatever goroutine of the package is still there and is not an
+// idle worker will never end (its executor is garbage now); later sections ignore it.
+func (e *c11Env) reap(self int64) {
+	for _, g := range c11Dump() {
+		if g.id == self || !strings.Contains(g.stack, "go-zero/core/executors.") || strings.Contains(g.stack, "c11Foreign") {
+			continue
+		}
+		if g.state == "chan receive" && c11Inner(g.stack) == "c11WorkerLoop" {
+			continue
+		}
+		c11Zombies[g.id] = true
 	}
 }
 
@@ -270,10 +478,13 @@ func c11Ints(xs []int, sep string) string {
 func (e *c11Env) observe(self int64) string {
 	snap := e.quiesce(self)
 	if snap == nil {
-		return "TIMEOUT-not-quiescent"
+		return e.stuck
 	}
 	var cont []int
-	e.pe.Sync(func() {
+	// every goroutine is parked (a caller parked at a hold point even owns pe.lock, and a changed tree may
+	// have leaked the lock): read without pe.Sync, nothing moves
+	sync_ := func(fn func()) { fn() }
+	sync_(func() {
 		for _, t := range e.peek() {
 			cont = append(cont, t.(int))
 		}
@@ -285,6 +496,9 @@ func (e *c11Env) observe(self int64) string {
 	}
 	nf := append([]int(nil), e.newFin...)
 	e.newFin = nil
+	ends := append([]int(nil), nf...)
+	wret := e.wret
+	e.wret = nil
 	e.mu.Unlock()
 	sort.Strings(cbs)
 	sort.Ints(nf)
@@ -297,13 +511,20 @@ func (e *c11Env) observe(self int64) string {
 		fl = strings.Join(snap.flushers, ",")
 	}
 	g := 0
-	e.pe.Sync(func() {
+	sync_(func() {
 		if e.pe.guarded {
 			g = 1
 		}
 	})
-	return fmt.Sprintf("w=%s fl=%s c=%s cmd=%d inf=%d g=%d cb=%s nf=%s", strings.Join(snap.workers, ","), fl,
+	obs := fmt.Sprintf("w=%s fl=%s c=%s cmd=%d inf=%d g=%d cb=%s nf=%s", strings.Join(snap.workers, ","), fl,
 		c11Ints(cont, ","), len(e.pe.commander), atomic.LoadInt32(&e.pe.inflight), g, cb, c11Ints(nf, ","))
+	if len(wret) > 0 {
+		// event order inside this operation (for the monitor only): callback ends in order, and for every Wait
+		// that returned how many of them had happened before
+		sort.Strings(wret)
+		obs += " ends=" + c11Ints(ends, ",") + " wret=" + strings.Join(wret, ",")
+	}
+	return obs
 }
 
 func (e *c11Env) release(first int, pan bool) bool {
@@ -353,6 +574,264 @@ func c11Cfg(kind string, max, iv, p, gate, pm int) string {
 	return fmt.Sprintf("kind=%s max=%d iv=%d P=%d gate=%d pm=%d", kind, max, iv, p, gate, pm)
 }
 
+// c11T encodes a task: 8*id + byte size (the size only matters to the chunk executor)
+func c11T(id, size int) int { return 8*id + size }
+
+// c11Race generates one section of the class "a tick (or Flush / Wait / Add of somebody else) is taken while a
+// producer is inside the critical section of a threshold-reaching Add", optionally after an idle period of
+// around idleRound intervals, so that the tick is the one on which the flusher considers quitting.
+func c11Race(r *verifh.Rng) verifh.Section {
+	kind := r.PickS("bulk", "bulk", "chunk")
+	max := r.Pick(1, 2, 2, 3)
+	iv := r.Pick(1, 10, 1000)
+	p := r.Range(2, 3)
+	gate := r.Pick(0, 0, 1)
+	id := 1
+	var ops []string
+	var open_ []int // first tasks of batches that may sit in a gated callback
+	size := func() int { return 1 }
+	if kind == "chunk" {
+		max = r.Pick(2, 3, 5)
+	}
+	// fill brings the container to exactly one task short of the threshold, the next add reaches it
+	fill := func(w int) int {
+		first := -1
+		if kind == "chunk" {
+			if max > 1 {
+				x := c11T(id, max-1)
+				id++
+				ops = append(ops, fmt.Sprintf("add %d %d", w, x))
+				first = x
+			}
+			return first
+		}
+		for i := 0; i < max-1; i++ {
+			x := c11T(id, size())
+			id++
+			ops = append(ops, fmt.Sprintf("add %d %d", w, x))
+			if first < 0 {
+				first = x
+			}
+		}
+		return first
+	}
+	relAll := func() {
+		if gate == 1 {
+			for _, f := range open_ {
+				ops = append(ops, fmt.Sprintf("rel %d ok", f))
+			}
+		}
+		open_ = nil
+	}
+	// warm-up: start the flusher; variants leave `commanded` set or cleared
+	switch r.Intn(3) {
+	case 0: // one task, flushed by a tick
+		x := c11T(id, 1)
+		id++
+		ops = append(ops, fmt.Sprintf("add 0 %d", x))
+		if !(kind == "bulk" && max == 1) && !(kind == "chunk" && max <= 1) {
+			ops = append(ops, "tick")
+		}
+		open_ = append(open_, x)
+		relAll()
+	case 1: // a full batch through the commander
+		f := fill(0)
+		x := c11T(id, 1)
+		id++
+		ops = append(ops, fmt.Sprintf("add 0 %d", x))
+		if f < 0 {
+			f = x
+		}
+		open_ = append(open_, f)
+		relAll()
+	default: // nothing: the racing Add is the one that starts the flusher
+	}
+	for i := r.Pick(0, 1, 1, 2, 2); i > 0; i-- {
+		ops = append(ops, "tick") // clears `commanded`, sets `last`
+	}
+	f := fill(r.Intn(p))
+	// idle period around the quit boundary
+	ops = append(ops, fmt.Sprintf("t+ %d", r.Pick(10*iv+1, 10*iv+1, 11*iv, 10*iv, 10*iv-1, 1)))
+	w := r.Intn(p)
+	pt := r.PickS("full", "full", "removed", "removed", "notfull", "fremoved")
+	x := c11T(id, 1)
+	id++
+	if r.Chance(1, 4) {
+		// the other way round: the FLUSHER is inside the critical section of its tick Flush (past the idle bound)
+		// while the producer arrives; on release the producer's threshold Add races the flusher's quit check
+		ops = append(ops, "hold bg fremoved", "tick", fmt.Sprintf("add %d %d", w, x))
+		if r.Chance(1, 2) {
+			y := c11T(id, 1)
+			id++
+			ops = append(ops, fmt.Sprintf("add %d %d", (w+1)%p, y))
+		}
+		ops = append(ops, "unhold bg")
+		if f < 0 {
+			f = x
+		}
+		if f >= 0 {
+			open_ = append(open_, f)
+		}
+		if r.Chance(1, 2) {
+			relAll()
+		}
+		ops = append(ops, "drain")
+		return verifh.Section{Cfg: c11Cfg(kind, max, iv, p, gate, 0), Ops: ops}
+	}
+	ops = append(ops, fmt.Sprintf("hold %d %s", w, pt))
+	if pt == "fremoved" {
+		ops = append(ops, fmt.Sprintf("%s %d", r.PickS("flush", "wait"), w))
+	} else {
+		ops = append(ops, fmt.Sprintf("add %d %d", w, x))
+		if f < 0 {
+			f = x
+		}
+	}
+	// what the others do while w is inside the critical section
+	for i, n := 0, r.Range(1, 3); i < n; i++ {
+		o := (w + 1 + r.Intn(p-1)) % p
+		k := r.Intn(6)
+		if i == 0 && r.Chance(3, 4) {
+			k = 0
+		}
+		switch k {
+		case 0, 1, 2:
+			ops = append(ops, "tick")
+		case 3:
+			ops = append(ops, fmt.Sprintf("wait %d", o))
+		case 4:
+			ops = append(ops, fmt.Sprintf("flush %d", o))
+		default:
+			y := c11T(id, 1)
+			id++
+			ops = append(ops, fmt.Sprintf("add %d %d", o, y))
+		}
+	}
+	ops = append(ops, fmt.Sprintf("unhold %d", w))
+	if f >= 0 {
+		open_ = append(open_, f)
+	}
+	if r.Chance(1, 2) {
+		relAll()
+	}
+	// tail: nothing (a later Add would restart a flusher that quit wrongly and rescue the batch), or a few ops
+	for i := r.Pick(0, 0, 0, 1, 3); i > 0; i-- {
+		switch r.Intn(4) {
+		case 0:
+			ops = append(ops, "tick")
+		case 1:
+			ops = append(ops, fmt.Sprintf("wait %d", r.Intn(p)))
+		case 2:
+			ops = append(ops, fmt.Sprintf("t+ %d", 10*iv+1), "tick")
+		default:
+			y := c11T(id, 1)
+			id++
+			ops = append(ops, fmt.Sprintf("add %d %d", r.Intn(p), y))
+		}
+	}
+	ops = append(ops, "drain")
+	return verifh.Section{Cfg: c11Cfg(kind, max, iv, p, gate, 0), Ops: ops}
+}
+
+// c11Barrier generates one section of the class "somebody is parked between taking a batch (RemoveAll in Flush /
+// the commander receive of the hand-over path) and registering in the wait group, while another goroutine
+// calls Wait": the harness owns pe.wgBarrier for a while, and the caller that releases it goes straight on
+// into Wait / Flush.
+func c11Barrier(r *verifh.Rng) verifh.Section {
+	kind := r.PickS("bulk", "bulk", "chunk")
+	max := r.Pick(2, 2, 3)
+	iv := r.Pick(1, 10, 1000)
+	p := 3
+	gate := r.Pick(1, 1, 0)
+	id := 1
+	var ops []string
+	var firsts []int
+	add := func(w, sz int) int {
+		x := c11T(id, sz)
+		id++
+		ops = append(ops, fmt.Sprintf("add %d %d", w, x))
+		return x
+	}
+	if r.Chance(1, 3) {
+		// a flusher that has already seen a tick (commanded cleared)
+		firsts = append(firsts, add(0, 1))
+		ops = append(ops, "tick")
+		if gate == 1 {
+			ops = append(ops, fmt.Sprintf("rel %d ok", firsts[0]))
+		}
+	}
+	h := r.Intn(p) // the caller that holds the barrier and then runs ahead
+	o1, o2 := (h+1)%p, (h+2)%p
+	switch r.Intn(3) {
+	case 0: // Flush / tick / Wait of somebody else parks at the barrier with tasks pending in the container
+		n := 1
+		if kind == "bulk" {
+			n = r.Range(1, max-1)
+		}
+		for i := 0; i < n; i++ {
+			x := add(o1, 1)
+			if i == 0 {
+				firsts = append(firsts, x)
+			}
+		}
+		ops = append(ops, fmt.Sprintf("bhold %d", h))
+		switch r.Intn(4) {
+		case 0:
+			ops = append(ops, "tick")
+		case 1:
+			ops = append(ops, fmt.Sprintf("wait %d", o2))
+		default:
+			ops = append(ops, fmt.Sprintf("flush %d", o2))
+		}
+	case 1: // hand-over path: the flusher has received the batch from the commander and parks at the barrier
+		var f int
+		if kind == "chunk" {
+			f = add(o1, max-1)
+		} else {
+			for i := 0; i < max-1; i++ {
+				x := add(o1, 1)
+				if i == 0 {
+					f = x
+				}
+			}
+		}
+		firsts = append(firsts, f)
+		ops = append(ops, fmt.Sprintf("bhold %d", h))
+		add(o2, 1)
+	default: // both: a batch in the hand-over and a task in the container
+		ops = append(ops, fmt.Sprintf("bhold %d", h))
+		var f int
+		if kind == "chunk" {
+			f = add(o1, max)
+		} else {
+			for i := 0; i < max; i++ {
+				x := add(o1, 1)
+				if i == 0 {
+					f = x
+				}
+			}
+		}
+		firsts = append(firsts, f)
+		if r.Chance(1, 2) {
+			firsts = append(firsts, add(o2, 1))
+			ops = append(ops, "tick")
+		}
+	}
+	ops = append(ops, "brel "+r.PickS("wait", "wait", "wait", "flush", "none"))
+	if r.Chance(1, 2) {
+		ops = append(ops, fmt.Sprintf("wait %d", r.Intn(p)))
+	}
+	if gate == 1 {
+		for _, f := range firsts {
+			if r.Chance(2, 3) {
+				ops = append(ops, fmt.Sprintf("rel %d %s", f, r.PickS("ok", "ok", "panic")))
+			}
+		}
+	}
+	ops = append(ops, "drain")
+	return verifh.Section{Cfg: c11Cfg(kind, max, iv, p, gate, 0), Ops: ops}
+}
+
 func c11Gen(r *verifh.Rng) []verifh.Section {
 	var secs []verifh.Section
 	// scripted: hand-over window (batch taken by a producer, background busy) then Wait
@@ -377,12 +856,30 @@ func c11Gen(r *verifh.Rng) []verifh.Section {
 	// scripted: idle quit and restart
 	secs = append(secs, verifh.Section{Cfg: c11Cfg("bulk", 3, 10, 2, 0, 0),
 		Ops: []string{"add 0 1", "tick", "t+ 100", "tick", "t+ 1", "tick", "add 0 2", "tick", "add 1 3", "wait 0", "t+ 101", "tick", "tick", "add 0 4", "drain"}})
+	// scripted: idle for more than idleRound intervals, then the tick is taken while a producer at the threshold
+	// holds the lock (before / after RemoveAll): the flusher must not quit (inflight > 0 under the lock)
+	for _, pt := range []string{"full", "removed"} {
+		secs = append(secs, verifh.Section{Cfg: c11Cfg("bulk", 2, 10, 2, 0, 0),
+			Ops: []string{"add 0 1", "t+ 101", "hold 1 " + pt, "add 1 2", "tick", "unhold 1", "drain"}})
+	}
+	// scripted: a Flush is parked at the wait-group barrier while the releasing caller runs Wait
+	secs = append(secs, verifh.Section{Cfg: c11Cfg("bulk", 3, 10, 3, 1, 0),
+		Ops: []string{"add 0 1", "add 0 2", "bhold 2", "flush 1", "brel wait", "rel 1 ok", "drain"}})
+	// scripted: the flusher holds a handed-over batch at the barrier while the releasing caller runs Wait
+	secs = append(secs, verifh.Section{Cfg: c11Cfg("bulk", 2, 10, 3, 1, 0),
+		Ops: []string{"add 0 1", "bhold 2", "add 1 2", "brel wait", "rel 1 ok", "drain"}})
+	for i := verifh.Scale(24, 400); i > 0; i-- {
+		secs = append(secs, c11Race(r))
+	}
+	for i := verifh.Scale(24, 400); i > 0; i-- {
+		secs = append(secs, c11Barrier(r))
+	}
 	nsec := verifh.Scale(70, 900)
 	for i := 0; i < nsec; i++ {
 		kind := r.PickS("bulk", "bulk", "chunk")
 		max := r.Pick(1, 2, 2, 3, 3, 4, 6)
 		if kind == "chunk" {
-			max = r.Pick(1, 3, 5, 8)
+			max = r.Pick(1, 3, 5, 8, 12)
 		}
 		if r.Chance(1, 25) {
 			max = r.Pick(0, -1)
@@ -399,24 +896,82 @@ func c11Gen(r *verifh.Rng) []verifh.Section {
 		var ops []string
 		id := 1
 		var added []int
+		bytes := 0 // the generator's guess of the bytes in the chunk container (exact unless adds race)
+		// while a caller is (possibly) parked inside the critical section / the harness owns the barrier, every
+		// further call piles up behind it; the pile is released after at most 3 operations (the model explores
+		// every interleaving of the released goroutines: the state space is exponential in the pile)
+		armed := map[int]bool{}
+		bheld := false
+		pile := 0
 		for j := 0; j < nops; j++ {
 			w := r.Intn(p)
-			switch x := r.Intn(100); {
-			case x < 42:
-				ops = append(ops, fmt.Sprintf("add %d %d", w, id))
-				added = append(added, id)
+			if pile >= 3 {
+				pile = 0
+				if bheld {
+					ops = append(ops, "brel "+r.PickS("wait", "wait", "flush", "none"))
+					bheld = false
+				}
+				for k := 0; k < p; k++ {
+					if armed[k] {
+						ops = append(ops, fmt.Sprintf("unhold %d", k))
+						delete(armed, k)
+					}
+				}
+				if armed[p] {
+					ops = append(ops, "unhold bg")
+					delete(armed, p)
+				}
+				continue
+			}
+			x := r.Intn(100)
+			if (len(armed) > 0 || bheld) && (x < 70 || x >= 92) {
+				pile++
+			}
+			switch {
+			case x < 40:
+				sz := r.Intn(8)
+				if kind == "chunk" && r.Chance(3, 5) {
+					// aim at the byte threshold: one below, exactly, one above
+					if want := max + r.Pick(-1, 0, 1) - bytes; want >= 0 && want <= 7 {
+						sz = want
+					}
+				}
+				if bytes += sz; bytes >= max {
+					bytes = 0
+				}
+				t := c11T(id, sz)
+				ops = append(ops, fmt.Sprintf("add %d %d", w, t))
+				added = append(added, t)
 				id++
-			case x < 50:
+			case x < 48:
 				ops = append(ops, fmt.Sprintf("flush %d", w))
-			case x < 60:
+				bytes = 0
+			case x < 58:
 				ops = append(ops, fmt.Sprintf("wait %d", w))
-			case x < 72:
+				bytes = 0
+			case x < 70:
 				ops = append(ops, "tick")
-			case x < 80:
+			case x < 77:
 				ops = append(ops, fmt.Sprintf("t+ %d", r.Pick(1, iv, 10*iv-1, 10*iv, 10*iv+1, 11*iv, 5*iv)))
-			case x < 84:
+			case x < 81:
 				// force the idle-quit path: more than 10 intervals, two ticks
 				ops = append(ops, fmt.Sprintf("t+ %d", 10*iv+1), "tick", "tick")
+				bytes = 0
+			case x < 84:
+				ops = append(ops, fmt.Sprintf("hold %d %s", w, r.PickS("full", "removed", "notfull", "fremoved")))
+				armed[w] = true
+			case x < 85:
+				ops = append(ops, "hold bg fremoved")
+				armed[p] = true
+			case x < 88:
+				ops = append(ops, fmt.Sprintf("unhold %d", w))
+				delete(armed, w)
+			case x < 90:
+				ops = append(ops, fmt.Sprintf("bhold %d", w))
+				bheld = true
+			case x < 92:
+				ops = append(ops, "brel "+r.PickS("wait", "wait", "flush", "none"))
+				bheld = false
 			default:
 				if gate == 1 && len(added) > 0 {
 					k := added[r.Intn(len(added))]
@@ -438,14 +993,15 @@ func c11Gen(r *verifh.Rng) []verifh.Section {
 
 // ---------------------------------------------------------------------------------------------- executor
 
-func c11Size(x int) int { return x%3 + 1 }
+// a task is the number 8*id + size: the generator chooses the byte size of every chunk task (0..7)
+func c11Size(x int) int { return x % 8 }
 
 func TestVerifC11(t *testing.T) {
 	logx.Disable()
 	self := c11Goid()
 	secs := verifh.Sections(c11Gen)
 	verifh.Run(t, secs, func(cfg verifh.Cfg) (func(op []string) string, func()) {
-		e := &c11Env{gate: cfg.Int("gate", 0) == 1, pm: cfg.Int("pm", 0)}
+		e := &c11Env{gate: cfg.Int("gate", 0) == 1, pm: cfg.Int("pm", 0), bholder: -1, bch: make(chan string), bgCh: make(chan struct{})}
 		iv := time.Duration(cfg.Int("iv", 10))
 		max := cfg.Int("max", 2)
 		kind := cfg.Str("kind", "bulk")
@@ -463,6 +1019,7 @@ func TestVerifC11(t *testing.T) {
 			e.peek = func() []any { return be.container.tasks }
 			addFn = func(x int) { _ = be.Add(x) }
 		}
+		e.pe.container = &c11HookContainer{inner: e.pe.container, e: e}
 		e.pe.newTicker = func(time.Duration) timex.Ticker {
 			tk := &c11Ticker{c: make(chan time.Time)}
 			e.mu.Lock()
@@ -477,12 +1034,17 @@ func TestVerifC11(t *testing.T) {
 			go c11WorkerLoop(w, ready)
 			<-ready
 			e.workers = append(e.workers, w)
+			e.arm = append(e.arm, "")
+			e.holdCh = append(e.holdCh, make(chan struct{}))
 		}
 		idle := func(w int) bool {
 			snap := e.quiesce(self)
 			return snap != nil && snap.workers[w] == "idle"
 		}
 		step := func(op []string) string {
+			if e.dead {
+				return e.stuck // the watchdog fired earlier in this section
+			}
 			switch op[0] {
 			case "add", "flush", "wait":
 				w := verifh.Atoi(op[1])
@@ -496,12 +1058,89 @@ func TestVerifC11(t *testing.T) {
 				case "flush":
 					e.workers[w].cmd <- func() { e.pe.Flush() }
 				default:
-					e.workers[w].cmd <- func() { e.pe.Wait() }
+					e.workers[w].cmd <- func() { e.wait(w) }
 				}
+				return e.observe(self)
+			case "bhold":
+				w := verifh.Atoi(op[1])
+				if w < 0 || w >= p || e.bholder >= 0 {
+					return "skip"
+				}
+				snap := e.quiesce(self)
+				if snap == nil {
+					return e.stuck
+				}
+				if snap.workers[w] != "idle" {
+					return "skip"
+				}
+				for _, c := range snap.workers {
+					if c == "wgwait" { // a Wait owns the barrier
+						return "skip"
+					}
+				}
+				e.bhold(w)
+				return e.observe(self)
+			case "brel":
+				if e.bholder < 0 {
+					return "skip"
+				}
+				switch op[1] {
+				case "wait", "flush", "none":
+				default:
+					return "bad-op"
+				}
+				if e.quiesce(self) == nil {
+					return e.stuck
+				}
+				return e.brel(op[1], self)
+			case "hold":
+				if op[1] == "bg" {
+					// arm the background flusher: it parks inside the RemoveAll of its next tick / quit Flush
+					if op[2] != "fremoved" {
+						return "bad-op"
+					}
+					if e.quiesce(self) == nil {
+						return e.stuck
+					}
+					e.mu.Lock()
+					e.bgArm = true
+					e.mu.Unlock()
+					return e.observe(self)
+				}
+				// arm caller w: its next pass through the named point of the critical section parks it there
+				w := verifh.Atoi(op[1])
+				if w < 0 || w >= p || !idle(w) {
+					return "skip"
+				}
+				switch op[2] {
+				case "full", "notfull", "removed", "fremoved":
+				default:
+					return "bad-op"
+				}
+				e.mu.Lock()
+				e.arm[w] = op[2]
+				e.mu.Unlock()
+				return e.observe(self)
+			case "unhold":
+				if op[1] == "bg" {
+					if e.quiesce(self) == nil {
+						return e.stuck
+					}
+					e.unholdBg()
+					return e.observe(self)
+				}
+				w := verifh.Atoi(op[1])
+				if w < 0 || w >= p {
+					return "skip"
+				}
+				if e.quiesce(self) == nil {
+					return e.stuck
+				}
+				e.unhold(w)
 				return e.observe(self)
 			case "tick":
 				if e.quiesce(self) == nil {
-					return "TIMEOUT-not-quiescent"
+					return e.stuck
 				}
 				d := 0
 				if e.tick() {
@@ -510,7 +1149,7 @@ func TestVerifC11(t *testing.T) {
 				return fmt.Sprintf("d=%d ", d) + e.observe(self)
 			case "rel":
 				if e.quiesce(self) == nil {
-					return "TIMEOUT-not-quiescent"
+					return e.stuck
 				}
 				if !e.release(verifh.Atoi(op[1]), op[2] == "panic") {
 					return "skip"
@@ -520,19 +1159,39 @@ func TestVerifC11(t *testing.T) {
 				timex.VerifAdvance(time.Duration(verifh.Atoi(op[1])))
 				return e.observe(self)
 			case "drain":
+				if e.bholder >= 0 {
+					if e.quiesce(self) == nil {
+						return e.stuck
+					}
+					e.bch <- "none"
+					e.bholder = -1
+				}
+				for w := 0; w < p; w++ {
+					if e.quiesce(self) == nil {
+						return e.stuck
+					}
+					e.unhold(w)
+				}
+				if e.quiesce(self) == nil {
+					return e.stuck
+				}
+				e.unholdBg()
 				for i := 0; i < 1000; i++ {
 					if e.quiesce(self) == nil {
-						return "TIMEOUT-not-quiescent"
+						return e.stuck
 					}
 					if !e.releaseAll() {
 						break
 					}
 				}
-				e.workers[p].cmd <- func() { e.pe.Wait() }
+				if e.quiesce(self) == nil {
+					return e.stuck
+				}
+				e.workers[p].cmd <- func() { e.wait(p) }
 				for i := 0; i < 1000; i++ {
 					snap := e.quiesce(self)
 					if snap == nil {
-						return "TIMEOUT-not-quiescent"
+						return e.stuck
 					}
 					if !e.releaseAll() {
 						break
@@ -549,6 +1208,18 @@ func TestVerifC11(t *testing.T) {
 		}
 		done := func() {
 			// let the background goroutine of this section quit (not part of the trace)
+			if e.bholder >= 0 && !e.dead && e.quiesce(self) != nil {
+				e.bch <- "none"
+				e.bholder = -1
+			}
+			for w := 0; w < p && !e.dead; w++ {
+				if e.quiesce(self) != nil {
+					e.unhold(w)
+				}
+			}
+			if !e.dead && e.quiesce(self) != nil {
+				e.unholdBg()
+			}
 			for i := 0; i < 50; i++ {
 				e.releaseAll()
 				snap := e.quiesce(self)
@@ -561,6 +1232,8 @@ func TestVerifC11(t *testing.T) {
 			for _, w := range e.workers {
 				close(w.cmd)
 			}
+			e.dead = false
+			e.reap(self)
 			timex.VerifClockOff()
 		}
 		return step, done
